@@ -1922,7 +1922,7 @@ fn gen_text(rng: &mut Rng, info: &FontInfo) -> String {
         let unit_len = 1 + rng.usize_below(4);
         let unit = gen_text_short(rng, info, unit_len);
         if !unit.is_empty() {
-            let total = *rng.pick(&[300usize, 1000, 3000, 8000]);
+            let total = *rng.pick(&[300usize, 1000, 2000, 4000]);
             let mut s = String::new();
             if rng.pct(30) {
                 // one base followed by many repetitions of the rest
